@@ -212,6 +212,11 @@ func (f *FieldCopyFromGenerator) genObject() *j.Statement {
 					}
 
 					m.GenerateFields(g)
+				} else if f.IsNullable {
+					// A message with no fields has nothing to read, but a non-null
+					// attribute still means that the message is present
+					// obj.Nested = &Nested{}
+					g.Id(objFieldName).Op("=&").Id(f.i.WithType(f.GoElemTypeIndirect)).Values()
 				}
 			})
 		} else {
